@@ -81,7 +81,19 @@ class _TNone(T):
         return VNone()
 
 
+class _TPath(T):
+    """pathlib.Path value: abstractly the (normalised) path string `str(p)`; see pyvc/fsmodel.py"""
+    name = "Path"
+
+    def sort(self):
+        return z3.StringSort()
+
+    def wrap(self, e):
+        return VPath(e)
+
+
 TInt, TReal, TBool, TStr, TNone = _TInt(), _TReal(), _TBool(), _TStr(), _TNone()
+TPath = _TPath()
 
 
 class TUn(T):
@@ -307,6 +319,14 @@ class VUn(V):
         self.t = t
 
 
+class VPath(V):
+    """pathlib.Path: immutable; `e` is the z3 string str(p) (a fixpoint of path normalisation)"""
+    t = TPath
+
+    def __init__(self, e):
+        self.e = z3.StringVal(e) if isinstance(e, str) else e
+
+
 class VNone(V):
     t = TNone
     e = None
@@ -472,7 +492,7 @@ class VUndef(V):
 def typeof(v):
     if isinstance(v, (VInt, VReal, VBool, VStr, VNone)):
         return v.t
-    if isinstance(v, (VUn, VOpt, VRec, VTuple, VSeq, VMap, VSet)):
+    if isinstance(v, (VUn, VOpt, VRec, VTuple, VSeq, VMap, VSet, VPath)):
         return v.t
     raise TypeError("value of %s has no encodable type" % type(v).__name__)
 
@@ -505,6 +525,8 @@ def unwrap(v, t):
         return v.e
     if isinstance(t, _TNone):
         return z3.BoolVal(True)
+    if isinstance(t, _TPath) and isinstance(v, VPath):
+        return v.e
     if isinstance(t, TUn) and isinstance(v, VUn) and v.t == t:
         return v.e
     if isinstance(t, TTuple) and isinstance(v, VTuple):
@@ -538,7 +560,7 @@ def unwrap(v, t):
 class TypeEnv:
     def __init__(self):
         self.named = {"int": TInt, "float": TReal, "Real": TReal, "bool": TBool, "str": TStr,
-                      "None": TNone}
+                      "None": TNone, "Path": TPath}
 
     def declare(self, name, t):
         self.named[name] = t
